@@ -372,31 +372,8 @@ func runC04(c *kit.Ctx) {
 
 	failedRegionAlwaysMarked(c)
 	lookupContexts(c)
-	// a failed establishment attempt re-resolves the location before the next one
-	{
-		var addrAlloc *ssa.Alloc
-		if ap := paramOfType(est, "string", 0); ap != nil {
-			addrAlloc = spillOf(ap)
-		}
-		dials := kit.Calls(est, hrpcRC+"Dial")
-		sleeps := kit.Calls(est, sleepName)
-		if addrAlloc == nil || len(dials) != 1 || len(sleeps) != 1 {
-			c.Unk(est, "relookup-shape", est.Pos(), "establishRegion no longer has one Dial, one back-off call and an address variable")
-		} else {
-			e := kit.PathFrom(dials[0], kit.PathQuery{
-				Target: func(x ssa.Instruction) bool { return x == sleeps[0].(ssa.Instruction) },
-				Stop: func(x ssa.Instruction) bool {
-					st, ok := x.(*ssa.Store)
-					if !ok || st.Addr != ssa.Value(addrAlloc) {
-						return false
-					}
-					k, ok := st.Val.(*ssa.Const)
-					return ok && k.Value != nil && k.Value.ExactString() == `""`
-				},
-			})
-			c.Check(e == nil, est, "failed-attempt-relooks-up", dials[0].Pos(), "every failed attempt clears the address so that the next one looks the region up again", "an establishment attempt can fail and be retried against the same address without consulting hbase:meta again: a region that moved is never found: "+c.BlockPath(e))
-		}
-	}
+	failedAttemptRelooksUp(c)
+	tableNotFoundEvicts(c)
 
 	// a region replacing a moved/split/merged one becomes visible only once it is marked unavailable
 	markBeforePublish(c)
